@@ -192,7 +192,10 @@ def mutated_exprs(stmts):
     class V(ast.NodeVisitor):
         def _tgt(self, t):
             if isinstance(t, ast.Subscript):
-                out.append(("store", t.value))
+                base = t.value
+                while isinstance(base, ast.Subscript):     # m[i][j] = v mutates m (m[i] is a view)
+                    base = base.value
+                out.append(("store", base))
             elif isinstance(t, ast.Attribute):
                 out.append(("attr", t.value, t.attr))
             elif isinstance(t, (ast.Tuple, ast.List)):
